@@ -192,7 +192,7 @@ ScratchBoundOk(len, scr) == \A e \in 1..3 : scr[e] <= 12 * len + 64          \* 
 Build(kind, len, dir, scr) ==
     /\ planning # << >>
     /\ drift' = drift + DriftIf(~(dir = planning[1].dir /\ ScratchBoundOk(len, scr)), <<"build", kind, len, dir, scr>>)
-    /\ planning' = <<[planning[1] EXCEPT !.builds = Append(@, <<kind, len>>)]>>
+    /\ planning' = <<[planning[1] EXCEPT !.builds = Append(@, <<kind, len, scr>>)]>>
     /\ UNCHANGED <<cfg, planners, cache, insts, pending, refs>>
 
 \* Faithful layer for the AVX planner's cache-dependent planning (replan_with_cache): given the cache contents at
@@ -226,7 +226,12 @@ BuildChainDrift(p) ==
     THEN LET exp == AvxChainExpected(pl.elem, p.n, p.cache0)
              k   == Len(exp)
              obs == IF Len(p.builds) >= k THEN [i \in 1..k |-> p.builds[Len(p.builds) - k + i][2]] ELSE << >>
+             \* every radix stage advertises what the AVX mixed-radix formula derives from the stage below it
+             stageBad == {i \in 2..Len(p.builds) :
+                            /\ p.builds[i][1] \in {"Radix2", "Radix3", "Radix4", "Radix5", "Radix6", "Radix7", "Radix8", "Radix9", "Radix11", "Radix12", "Radix16"}
+                            /\ p.builds[i][3] # AvxRadixScr(p.builds[i][2], p.builds[i - 1][3])}
          IN DriftIf(exp # obs, <<"avx-chain", pl.elem, p.n, p.dir, exp, obs>>)
+            + DriftIf(stageBad # {}, <<"avx-radix-scratch", p.n, stageBad>>)
     ELSE 0
 
 \* C04 (+ C05 scratch clause): what plan_fft must return
